@@ -6,8 +6,9 @@
 (* the per-style outputs have the shape the style's name promises.         *)
 (***************************************************************************)
 EXTENDS Heck, TLC
-CONSTANTS MaxLen
-Alphabet == {97, 98, 65, 66, 49, 95}       \* a b A B 1 _
+CONSTANTS MaxLen,
+          Latin1       \* TRUE: the alphabet also holds a non-ASCII letter pair of the case table (e-acute / E-acute)
+Alphabet == {97, 98, 65, 66, 49, 95} \cup (IF Latin1 THEN {233, 201} ELSE {})      \* a b A B 1 _ (e' E')
 RECURSIVE StrsUpTo(_)
 StrsUpTo(n) == IF n = 0 THEN {<<>>}
                ELSE LET P == StrsUpTo(n - 1) IN
@@ -63,10 +64,10 @@ StyleShapes == pc = "done" =>
    /\ OnlyAlnumOr(Convert("PascalCase", s), 0) /\ OnlyAlnumOr(Convert("camelCase", s), 0)
    /\ Len(Convert("lowercase", s)) = Len(s) /\ NoUpper(Convert("lowercase", s))
    /\ Len(Convert("UPPERCASE", s)) = Len(s) /\ NoLower(Convert("UPPERCASE", s))
-   /\ Lower(Convert("lowercase", s)) = Lower(s) /\ Lower(Convert("UPPERCASE", s)) = Lower(s)
+   /\ ULower(Convert("lowercase", s)) = ULower(s) /\ ULower(Convert("UPPERCASE", s)) = ULower(s)
    \* letters and digits survive every style, only case and separators change
    /\ \A t \in Styles \ {"lowercase", "UPPERCASE"} :
-         Lower(SelectSeq(Convert(t, s), IsAlnum)) = Lower(SelectSeq(s, IsAlnum))
+         ULower(SelectSeq(Convert(t, s), IsAlnum)) = ULower(SelectSeq(s, IsAlnum))
    /\ \A t \in AcceptedStyles : Convert(t, s) = ConvertImpl(t, s)
    /\ Convert("camel_case", s) = Convert("PascalCase", s)
    /\ Convert("mixed_case", s) = Convert("camelCase", s)     \* on ASCII the two coincide
@@ -74,5 +75,5 @@ SnakifyShape == pc = "done" =>
    LET t == Snakify(s) IN
    /\ NoUpper(t)
    /\ \A j \in 2..Len(t) : (IsDigit(t[j]) /\ ~IsDigit(t[j - 1])) => t[j - 1] = 95
-   /\ SelectSeq(t, IsAlnum) = Lower(SelectSeq(s, IsAlnum))
+   /\ SelectSeq(t, IsAlnum) = ULower(SelectSeq(s, IsAlnum))
 =============================================================================
